@@ -390,9 +390,10 @@ func (p *service) onPublish(msg *message.PublishMessage) error {
 		return err
 	}
 
-	// A message forwarded to an established subscription carries retain flag 0
-	// (MQTT-3.3.1-9), for in-process subscribers as well.
-	sr := msg.Retain()
+	// A message the server forwards to an established subscription carries retain
+	// flag 0 (MQTT-3.3.1-9), for in-process subscribers as well. (A client hands
+	// the message to its callbacks as it was received.)
+	sr := !p.client && msg.Retain()
 	if sr {
 		msg.SetRetain(false)
 	}
